@@ -182,7 +182,41 @@ func helloRandom(b []byte) []byte {
 	return b[11:43]
 }
 
-const ekmLabel = "EXPERIMENTAL verif c06"
+// The exported-keying-material grid (the same in ocaml/agree/main.ml and checks/c06.py): every label x context x
+// length, in this order, concatenated.  Contexts: absent (nil), EMPTY but not nil, 1, 32 and 300 bytes.
+var ekmLabels = []string{"a", "EXPERIMENTAL verif c06", "EXPORTER-verif-c06-" + strings.Repeat("x", 51)}
+var ekmLengths = []int{1, 32, 33, 100}
+
+func ekmContexts() [][]byte {
+	c32, c300 := make([]byte, 32), make([]byte, 300)
+	for i := range c32 {
+		c32[i] = byte(i*3 + 1)
+	}
+	for i := range c300 {
+		c300[i] = byte(i*7 + 5)
+	}
+	return [][]byte{nil, {}, {0x5a}, c32, c300}
+}
+
+const ekmGridLen = 3 * 5 * (1 + 32 + 33 + 100)
+
+// ekmGrid evaluates an exporter over the grid; a refused export contributes "!" (never equal to a good grid)
+func ekmGrid(export func(string, []byte, int) ([]byte, error)) []byte {
+	var out []byte
+	for _, l := range ekmLabels {
+		for _, c := range ekmContexts() {
+			for _, n := range ekmLengths {
+				b, err := export(l, c, n)
+				if err != nil || len(b) != n {
+					out = append(out, '!')
+					continue
+				}
+				out = append(out, b...)
+			}
+		}
+	}
+	return out
+}
 
 func rawDigest(raws [][]byte) string {
 	if len(raws) == 0 {
